@@ -179,7 +179,7 @@ class ToNNX(Module):
       for attr_name, value in nnx_attrs.items():
         if hasattr(self, attr_name) and isinstance(value, dict):
           original_tree = getattr(self, attr_name)
-          setattr(self, attr_name, original_tree | value)
+          setattr(self, attr_name, bv._recursive_merge(original_tree, value))
         else:
           setattr(self, attr_name, value)
 
